@@ -309,6 +309,65 @@ class Volume(Part):
         return res
 
 
+_EQUIV = {}
+
+
+def case_equivalents(ch):
+    """Every character the regex engine treats as a case variant of `ch` (computed, not listed: the
+    whole Unicode range is scanned once per letter)."""
+    import re
+
+    if ch not in _EQUIV:
+        rx = re.compile(re.escape(ch), re.IGNORECASE)
+        _EQUIV[ch] = [chr(cp) for cp in range(0x30000) if not 0xD800 <= cp < 0xE000 and rx.fullmatch(chr(cp))]
+    return _EQUIV[ch]
+
+
+CF_WORDS = ["seattle", "kiosk", "Stra\u00dfe", "\u03c3\u03bf\u03c6\u03cc\u03c2"]
+CF_FRAMES = ["{}", "hostname {}-core-rtr01", "description uplink to {} lab", "interface Sea-{}x-1", "password {}",
+             "snmp-server community {} ro", "x{}y {}"]
+
+
+class CaseVariants(Part):
+    name = "case_variants_of_words"
+    desc = "every spelling of a sensitive word / AS context obtained by replacing up to k letters with any character the regex engine folds onto them"
+
+    def __init__(self, tier, seed):
+        self.tier, self.seed = tier, seed
+
+    def cases(self):
+        return [{"word": w} for w in CF_WORDS]
+
+    def run(self, case):
+        res = Res()
+        w = case["word"]
+        feats = [dict(anon_pwd=False, anon_ip=False, sensitive_words=list(CF_WORDS)),
+                 dict(anon_pwd=True, anon_ip=True, sensitive_words=list(CF_WORDS), as_numbers=["65001", "12"]),
+                 dict(anon_pwd=True, anon_ip=False, sensitive_words=[w.upper()], reserved_words=[w])]
+        if "lines" in case:
+            for fi, ft in enumerate(feats):
+                judge(res, case["lines"], "saltForTest", ft, {"word": w}, "features%d" % fi)
+            return res
+        k = 2 if self.tier == "quick" else 3
+        variants = {w, w.upper(), w.lower(), w.title(), w.swapcase(), w.casefold()}
+        eq = [case_equivalents(c) for c in w]
+        res.count("max_equivalents_per_letter", max(len(e) for e in eq))
+        for n in range(1, k + 1):
+            for pos in itertools.combinations(range(len(w)), n):
+                for repl in itertools.product(*[eq[i] for i in pos]):
+                    v = list(w)
+                    for i, r in zip(pos, repl):
+                        v[i] = r
+                    variants.add("".join(v))
+        lines = [fr.format(v, v) if fr.count("{}") == 2 else fr.format(v) for v in sorted(variants) for fr in CF_FRAMES]
+        for fi, ft in enumerate(feats):
+            for i in range(0, len(lines), 3000):
+                judge(res, lines[i:i + 3000], "saltForTest", ft, {"word": w}, "features%d" % fi)
+        res.samples.append({"word": w, "variants": len(variants), "lines": len(lines),
+                            "equivalents": {c: case_equivalents(c) for c in sorted(set(w))}})
+        return res
+
+
 def parts(tier, seed):
     return [ShortStrings(tier, seed), SlotFillers(tier, seed), LongRuns(tier, seed), Salts(tier, seed),
-            FileLevel(tier, seed), Volume(tier, seed)]
+            FileLevel(tier, seed), Volume(tier, seed), CaseVariants(tier, seed)]
